@@ -494,6 +494,45 @@ def valid(item):
 # common check flow
 
 
+def check_terms(tag, terms, per_file=120, shards=F.NCPU, attempt=0):
+    """F.coq_check_cases with smaller files (a 400-case file of trees costs ~0.9 GB in coqc) and one
+    sequentialised retry of shards whose coqc died without a Coq error (killed under memory pressure).
+    A Coq error, or a shard that dies again, is reported."""
+    bad, errs = F.coq_check_cases(tag, HEADER, CHECK, terms, shards=shards, per_file=per_file)
+    if not errs or attempt >= 2:
+        return bad, errs
+    n = len(terms)
+    nfiles = max(1, min(max(shards, (n + per_file - 1) // per_file), n))
+    step = (n + nfiles - 1) // nfiles
+    keep, retry = [], []
+    for name, msg in errs:
+        if name.startswith("cases_") and "Error" not in msg:
+            k = int(name[6:])
+            retry += list(range(k, min(k + step, n)))
+        else:
+            keep.append((name, msg))
+    if retry:
+        b2, e2 = check_terms(tag + "_retry", [terms[i] for i in retry], per_file=60, shards=4, attempt=attempt + 1)
+        bad = sorted(bad + [retry[j] for j in b2])
+        keep += e2
+    return bad, keep
+
+
+def correspond(binpath, items, tag):
+    """as F.correspond, through check_terms"""
+    rc, outl, err = F.run_bin_parallel(binpath, [it["line"] for it in items])
+    if rc != 0 or len(outl) != len(items):
+        return outl, [], [("harness", f"rc={rc} lines={len(outl)}/{len(items)} stderr={err[-1500:]}")]
+    terms = []
+    for it, o in zip(items, outl):
+        try:
+            terms.append(f"({it['coq']}, {F.zlistlist(F.norm_obs_line(o))})")
+        except ValueError:
+            return outl, [], [("harness", f"unparsable observation line {o[:200]!r} for {it['line'][:200]!r}")]
+    bad, cerrs = check_terms(tag, terms)
+    return outl, bad, cerrs
+
+
 def load_corpus(prop):
     d = os.path.join(F.VERIF, "corpus", prop)
     items = []
@@ -529,7 +568,7 @@ def run_check(rep, prop, tier, seed, gen_cases, rule, meta_expl, theorems_note):
     items, dist = gen_cases(rng, tier)
     items = corpus + items
     tag = prop.lower()
-    outl, bad, errors = F.correspond(binpath, items, HEADER, CHECK, tag)
+    outl, bad, errors = correspond(binpath, items, tag)
     for name, msg in errors:
         rep.violation("correspondence_error_" + name.replace("/", "_"), {"kind": "correspondence could not be evaluated", "where": name, "log": msg}, no_input=True)
     hist = {}
@@ -547,7 +586,7 @@ def run_check(rep, prop, tier, seed, gen_cases, rule, meta_expl, theorems_note):
         it = items[idx]
 
         def fails(c):
-            o, b, e = F.correspond(binpath, [c], HEADER, CHECK, tag + "_shrink")
+            o, b, e = correspond(binpath, [c], tag + "_shrink")
             return bool(b) and not e
 
         small = F.shrink_ops(it, build, fails)
@@ -594,6 +633,6 @@ def replay(prop, path):
     print("case:", it["line"])
     print("implementation:", out)
     print("model:", model)
-    o, bad, errs = F.correspond(binpath, [it], HEADER, CHECK, prop.lower() + "_replay")
+    o, bad, errs = correspond(binpath, [it], prop.lower() + "_replay")
     print("AGREE" if not bad and not errs else "DISAGREE")
     return 1 if bad or errs else 0
